@@ -213,25 +213,78 @@ def run_shared(rep, prog, cprog):
         det = 'unrecognised structure: %s' % e
     rep.ob('R-ALG', 'C compute_delj', ok, det, shared, cd.line, what='delj = 1/2 without the trick, Chang-Cooper weight with it, 1/2 at the singular points')
     pdj = prog.func(INT, '_compute_delj')
-    okp = False
+    # what the function returns with and without the switch, for 1- and 2-dimensional coefficient arrays and every axis: abstract
+    # execution; the returned value is the Chang-Cooper expression under filters that replace nan and +-inf by 1/2
+    from sa import miniexec as mx
+    from sa import alpha as _alpha
+    known_ = _alpha.load_table().get('__params__', {}).get(im.rel)
+    known_ = set(known_) if known_ is not None else None
+    okp = True
+    why = []
     try:
-        iff = [s for s in pdj.body if isinstance(s, ast.If)][0]
-        sing = {ast.unparse(s.targets[0]): s.value for s in iff.body if isinstance(s, ast.Assign)}
-        deljs = [s.value for s in iff.body if isinstance(s, ast.Assign) and ast.unparse(s.targets[0]) == 'delj']
+        for ndim in (1, 2):
+            for axis in range(ndim):
+                for trick in (False, True):
+                    it = mx.Interp(prog, im, known_functions=known_)
+                    paths = it.run(pdj, {'dx': mx.Sym('dx'), 'MInt': mx.Sym('MInt', attrs={'ndim': ndim}), 'VInt': mx.Sym('VInt'), 'axis': axis, 'use_delj_trick': trick})
+                    if len(paths) != 1 or paths[0][0][0] != 'return':
+                        okp = False
+                        why.append('use_delj_trick=%s: %d paths' % (trick, len(paths)))
+                        continue
+                    v = paths[0][0][1]
+                    if not trick:
+                        if v != 0.5:
+                            okp = False
+                            why.append('without the switch the function returns %s' % mx.show(v)[:40])
+                        continue
+                    seen = set()
+                    for _ in range(4):
+                        c = mx.call_of(v, 'where')
+                        if not c or len(c[0]) != 3:
+                            break
+                        cond, a, b = c[0]
+                        kind = next((k for k in ('isnan', 'isinf', 'isfinite') if mx.call_of(cond, k) is not None), None)
+                        if kind is None:
+                            break
+                        arg = mx.call_of(cond, kind)[0][0]
+                        if kind == 'isfinite' and mx.show(a) == mx.show(arg) and b == 0.5:
+                            seen |= {'nan', 'inf'}
+                            v = a
+                        elif kind in ('isnan', 'isinf') and a == 0.5 and mx.show(b) == mx.show(arg):
+                            seen.add(kind[2:])
+                            v = b
+                        else:
+                            break
+                    if seen != {'nan', 'inf'}:
+                        okp = False
+                        why.append('non-finite values replaced: %s' % sorted(seen))
+                    up = tuple(slice(None) if k == axis else 'nuax' for k in range(ndim))
 
-        def ih(t_, e):
-            return Rat.atom(t_._basename(e.value) + '@0')
-        T = Translator({}, index_hook=ih, name_hook=lambda n: Rat.atom(n + '@0') if n in ('MInt', 'VInt', 'dx') else None)
-        wjp = T.tr([s.value for s in iff.body if isinstance(s, ast.Assign) and ast.unparse(s.targets[0]) == 'wj'][0])
-        T2 = Translator({'wj': Rat.atom('wj'), 'epsj': Rat.atom('epsj')}, index_hook=ih, name_hook=lambda n: Rat.atom(n + '@0') if n in ('MInt', 'VInt', 'dx') else None)
-        fp = T2.tr(deljs[0])
-        eps_arg = [s.value for s in iff.body if isinstance(s, ast.Assign) and ast.unparse(s.targets[0]) == 'epsj'][0].args[0]
-        okp = ast.unparse(iff.test) == 'use_delj_trick' and wjp.equals(_parse_at('2*MInt@0*dx@0')) and fp.equals(chang) and \
-            T2.tr(eps_arg).equals(_parse_at('wj/VInt@0')) and ast.unparse(iff.orelse[0].value) == '0.5' and \
-            all('0.5' in ast.unparse(v) and ('isnan' in ast.unparse(v) or 'isinf' in ast.unparse(v)) for v in deljs[1:]) and len(deljs) == 3
-    except (AlgebraError, IndexError, AttributeError, KeyError):
+                    def leaf(x):
+                        if isinstance(x, mx.Sym) and x.text == 'MInt':
+                            return Rat.atom('MInt@0')
+                        if isinstance(x, mx.Sym) and x.struct and x.struct[0] == 'index' and mx.show(x.struct[1]) in ('dx', 'VInt'):
+                            key = x.struct[2] if isinstance(x.struct[2], tuple) else (x.struct[2],)
+                            if len(key) == ndim and all((mx.is_full_slice(k_) if i_ == axis else mx.is_newaxis(k_)) for i_, k_ in enumerate(key)):
+                                return Rat.atom(mx.show(x.struct[1]) + '@0')
+                            return None
+                        e_ = mx.call_of(x, 'exp')
+                        if e_ is not None:
+                            return Rat.atom('EXP[%s]' % mx.to_rat(e_[0][0], leaf).canon())
+                        return None
+                    got = mx.to_rat(v, leaf)
+                    wj_ = _parse_at('2*MInt@0*dx@0')
+                    eps_ = Rat.atom('EXP[%s]' % (wj_ / _parse_at('VInt@0')).canon())
+                    ref_ = chang.subs({'wj': wj_, 'epsj': eps_})
+                    if not got.equals(ref_):
+                        okp = False
+                        why.append('%d-D axis %d: returns %s' % (ndim, axis, got.canon()[:120]))
+    except mx.Undecidable as e:
+        raise AnalysisError('_compute_delj is not recognised: %s' % e)
+    except AlgebraError as e:
         okp = False
-    rep.ob('R-ALG', 'Python _compute_delj', okp, 'same Chang-Cooper expression, default 0.5, non-finite values replaced by 0.5', im.rel, pdj.lineno,
+        why.append('not evaluable: %s' % e)
+    rep.ob('R-ALG', 'Python _compute_delj', okp, 'same Chang-Cooper expression, default 0.5, non-finite values replaced by 0.5' + ('' if okp else ': ' + '; '.join(why[:2])), im.rel, pdj.lineno,
            what='Python delj equals the C delj')
     # ---- a, b, c assembly: C == reference derived from the flux form ---------------------------------------------------------
     ref = reference_scheme()
